@@ -546,7 +546,7 @@ def _want_cql(tree):
         inner = [_want_cql(x) for x in tree["of"]]
         return None if None in inner else "frozen<tuple<%s>>" % ", ".join(inner)
     if t == "udt":
-        return "frozen<%s>" % tree["name"]
+        return "frozen<%s>" % proto.quote_ident(tree["name"])
     return t
 
 
